@@ -376,25 +376,43 @@ class BlockDrop(Mapping[str, object]):
         # The parent block is rendered in `context`, but inside every loop the
         # overriding block has entered.
         enclosing = 1
+        # Local variables held by the overriding block count towards the local
+        # namespace limit of the parent block too.
+        held = 0
         if self.render_context is not None:
             enclosing = max(
                 1,
                 _loop_iterations(self.render_context)
                 // _loop_iterations(self.context),
             )
+            held = (
+                self.render_context.get_size_of_locals()
+                - self.render_context.local_namespace_size_carry
+            )
 
-        with self.context.loop_iterations(enclosing), self.context.extend(
-            {
-                "block": BlockDrop(
-                    token=self.parent.token,
-                    context=self.context,
-                    buffer=buf,
-                    name=self.parent.source_name,
-                    parent=self.parent.parent,
+        carry = self.context.local_namespace_size_carry
+        self.context.local_namespace_size_carry = carry + held
+        try:
+            with self.context.loop_iterations(enclosing), self.context.extend(
+                {
+                    "block": BlockDrop(
+                        token=self.parent.token,
+                        context=self.context,
+                        buffer=buf,
+                        name=self.parent.source_name,
+                        parent=self.parent.parent,
+                    )
+                }
+            ):
+                self.parent.block.block.render(self.context, buf)
+        finally:
+            self.context.local_namespace_size_carry = carry
+            if self.render_context is not None:
+                # Whatever the parent block assigned is carried into the
+                # overriding block, as it was when the block was entered.
+                self.render_context.local_namespace_size_carry = (
+                    self.context.get_size_of_locals()
                 )
-            }
-        ):
-            self.parent.block.block.render(self.context, buf)
 
         if self.context.autoescape:
             return Markupsafe(buf.getvalue())
